@@ -70,6 +70,7 @@ type Exec struct {
 	Props []string
 	curNode *node // top-level node being executed
 	uncapturedVals map[string]Value
+	freeAtCall map[string]Value // captured variables of the closure whose contract is being applied
 
 	assumes  []Assumption
 	assumeIx map[[2]*Term]bool
